@@ -34,6 +34,18 @@ def punct_refusals(ctx):
                     except Exception as e: st = type(e).__name__
                     ctx.fail('athlib.normalize_event_code', [t], 'ValueError (not an event code: %r with %r put in)' % (c, p), st, note='non-code not refused with ValueError',
                              replay_py='result = athlib.normalize_event_code(%r)' % t)
+    # strings that look like templates to a formatting call (the refusal message is built from the rejected string)
+    for t in ['{}', '{0}', '{DT}', 'DT{}', 'H{1}', '4x{100}', 'PEN{I}', '{kinds}', '%s', '%d', '%(a)s', '100%', 'DT%', '{', '}', '{{}}', '\\', '\x00', 'DT\x00', '$DT', '${DT}', '\\d+',
+              '100' * 400, 'x' * 5000, '٣٠٠٠SC{}', '{!r}', '{:>10}', '{0.__class__}']:
+        n += 1
+        try:
+            r = athlib.normalize_event_code(t); st = 'accepted, normalised to %r' % r
+            from athlib import codes as _codes
+            if _codes.PAT_EVENT_CODE.match(t.strip()): continue
+        except ValueError: continue
+        except Exception as e: st = type(e).__name__
+        ctx.fail('athlib.normalize_event_code', [t], 'ValueError (not an event code)', st, note='non-code not refused with ValueError',
+                 replay_py='result = athlib.normalize_event_code(%r)' % t)
     ctx.count(n, 'punctuation_near_misses')
 
 
